@@ -79,6 +79,16 @@ func c14(r *Report) propMeta {
 	r.Rule("C14.R8", "store-key agreement: every point read/delete addresses a written key family")
 	r.StoreKeyAgreement("store-keys", "bandtss", 8, nil)
 
+	r.Rule("C14.lint", "E8 module lint: no nondeterminism / process-local state in x/bandtss")
+	r.ModuleLint("module-lint", "bandtss", 20)
+
+	r.Rule("C14.R9", "the reward allocation sees the block's real vote infos; the bandtss active flag has two writers")
+	r.AbciPassThrough("abci-pass-through", "oracle")
+	r.AbciPassThrough("abci-pass-through", "bandtss")
+	r.ModuleLint("oracle-lint", "oracle", 20)
+	r.ArgHas("new-member-active", bK+"AddMember", "types.NewMember", 2, 1, "^const:true")
+	r.FieldWriters("member-active-writers", "Member.IsActive", nil, []string{bK + "ActivateMember", bK + "DeactivateMember", "x/bandtss/types.NewMember"}, []string{"x/bandtss"})
+
 	return propMeta{
 		Decided: []string{
 			"R1 the bank/distribution methods reachable from both AllocateTokens are only balance reads, module-to-module/account sends, GetCommunityTax, FundCommunityPool and AllocateTokensToValidator (no mint, burn or user-account debit)",
@@ -89,6 +99,8 @@ func c14(r *Report) propMeta {
 			"R6 WrappedBankKeeper.BurnCoins really burns only for the distribution module (or when no distr keeper is wired); otherwise funds the community pool with the same amount",
 			"R7 every LegacyDec/DecCoins operation on the reward path is a truncating one (QuoTruncate/MulDecTruncate/TruncateDecimal) or a subtraction",
 			"R8 every KV-store Get/Has/Delete of x/bandtss uses a key builder of x/bandtss/types that some Set of the module also uses (a probe of an iteration prefix or of a sibling family is always-empty state)",
+			"lint: the determinism lint (incl. writes to memory held by long-lived objects) over everything reachable from the handlers and blockers of x/bandtss",
+			"R9 the oracle and bandtss AppModule Begin/EndBlock methods hand the unwrapped context to the blocker without any Context.With… rewriting (the reward allocation weighs by the real last-commit vote infos); a bandtss member record is created active and its IsActive flag is written only by Activate/DeactivateMember, which also flip the tss flag the reward allocation reads (seeds C14-7, C14-8)",
 		},
 		Undecided: []string{"that no Sub goes negative under truncating decimals for all amounts (numerical; R7 is its structural half)", "percentages above 100 (see finding F3)", "sdk distribution internals"},
 		Assume:    []string{"bank Send* conserve supply", "distribution AllocateTokensToValidator / FundCommunityPool only re-label coins already in the distribution account"},
